@@ -445,6 +445,10 @@ def _env_for(ctx, assignment):
             x = math.sin(_eval_float(payload[0], env, memo) * float(payload[1]))
         elif kind == "atan2":
             x = math.atan2(_eval_float(payload[0], env, memo), _eval_float(payload[1], env, memo))
+        elif kind == "cos_of":
+            x = math.cos(_eval_float(payload, env, memo))
+        elif kind == "sin_of":
+            x = math.sin(_eval_float(payload, env, memo))
         else:  # pragma: no cover
             raise Unsupported(kind)
         env[sym.get_id()] = x
